@@ -7,6 +7,7 @@
     start points and the candidate exponent E are hints, every conclusion is re-established by
     sign tests on outward-rounded intervals. *)
 From Coq Require Import ZArith List Bool.
+From Dashu Require Import Base.Prelude Float.RoundSpec Float.Contract.
 From Interval Require Import Xreal Basic Sig Interval Float Float_full Specific_ops Specific_stdz Specific_sig.
 Import ListNotations.
 Open Scope Z_scope.
@@ -87,12 +88,26 @@ Definition decide_encl (pr : F.precision) (B p : Z) (T Rv : I.type) (fexact : bo
 Definition feq (B a ea b eb : Z) : bool :=
   let m := Z.min ea eb in a * B ^ (ea - m) =? b * B ^ (eb - m).
 
-(** the true value is the float (ts, te) exactly *)
-Definition decide_exact (pr : F.precision) (B p ts te rs re : Z) (fexact : bool) : verdict :=
+(** exact comparison a * B^ea <= b * B^eb *)
+Definition fle (B a ea b eb : Z) : bool :=
+  let m := Z.min ea eb in a * B ^ (ea - m) <=? b * B ^ (eb - m).
+
+(** exact comparison |a * B^ea - b * B^eb| < B^u *)
+Definition fdiff_lt (B a ea b eb u : Z) : bool :=
+  let m := Z.min (Z.min ea eb) u in
+  Z.abs (a * B ^ (ea - m) - b * B ^ (eb - m)) <? B ^ (u - m).
+
+(** the true value is the float (ts, te) exactly: decided in integer arithmetic.  The exponent E of
+    the true value is guessed from its digit count and then checked (B^E <= |t| < B^(E+1)). *)
+Definition decide_exact (B p ts te rs re : Z) (fexact : bool) : verdict :=
   if feq B rs re ts te then VAccept
   else if fexact then VReject
   else if ts =? 0 then VReject
-  else decide_ulp pr B p (ival pr B ts te) (ival pr B rs re).
+  else
+    let E := dlen B ts + te - 1 in
+    if fle B 1 E (Z.abs ts) te && negb (fle B 1 (E + 1) (Z.abs ts) te) then
+      (if fdiff_lt B rs re ts te (E - p + 1) then VAccept else VReject)
+    else VUndecided.
 
 (** ------------------------------------------------------------------------------------------
     enclosures of the true values                                                              *)
@@ -139,7 +154,10 @@ Definition T_expm1 (prt pra : F.precision) (K B s e : Z) : I.type :=
 Definition newton_step (pr : F.precision) (X Y : I.type) : I.type :=
   let Ym := pt (I.midpoint Y) in
   let EY := I.exp pr Ym in
-  I.add pr Ym (I.div pr (I.sub pr (pt (I.midpoint X)) EY) EY).
+  let Xm := pt (I.midpoint X) in
+  (* y + 2 (x - e^y) / (x + e^y): third order near ln x, and never moves by more than 2 (a plain
+     Newton step from a poor start can jump to astronomically large y) *)
+  I.add pr Ym (I.div pr (I.mul pr (I.fromZ pr 2) (I.sub pr Xm EY)) (I.add pr Xm EY)).
 
 Definition unit_ball : I.type := I.bnd (F.fromZ (-1)) (F.fromZ 1).
 
@@ -158,12 +176,36 @@ Definition vln (pr : F.precision) (slack : Z) (X Y0 : I.type) (steps : list posi
 
 (** ln x for x given as an interval X (exact value x0 inside); sharpened by
     (x-1)/x <= ln x <= x - 1 *)
+(** upper bound of ln (1 + d) that stays strictly away from d.  For d >= -1/2: with t = ln (1 + d) >= -2,
+    d = exp t - 1 >= t + t^2/4 and |t| >= |d| / (1 + |d|), hence t <= d - d^2 / (4 (1 + |d|)^2).
+    (A directed rounding of d - d^2/2 + ... lands exactly one ulp from d, and d itself is the bound
+    given by ln (1 + d) <= d.) *)
+Definition ln1p_upper (pra : F.precision) (D : I.type) : I.type :=
+  if is_ge (I.sign_large (I.add pra (I.mul pra (I.fromZ pra 2) D) (ione pra))) then
+    let A1 := I.add pra (ione pra) (I.abs D) in
+    I.lower_extent (I.sub pra D (I.div pra (I.mul pra D D) (I.mul pra (I.fromZ pra 4) (I.mul pra A1 A1))))
+  else I.whole.
+
+(** heuristic guard (either branch is sound): 1/4 < X < 4; a difference x - 1 for a huge or tiny x
+    aligns as many bits as the exponents are apart *)
+Definition near_one (X : I.type) : bool :=
+  match F.cmp (I.upper X) (F.fromZ 4), F.cmp (I.lower X) (Specific_ops.Float 1 (-2)) with
+  | Xlt, Xgt => true
+  | _, _ => false
+  end.
+
+(** ln x for x given as an interval (Xt at precision prt, Xa at precision pra, both contain x);
+    sharpened next to 1 by (x-1)/x <= ln x <= x - 1 and by ln1p_upper (x - 1) *)
 Definition T_ln_of (prt pra : F.precision) (slack : Z) (Xt Xa Y0 : I.type) (steps : list positive) : I.type :=
   let T1 := vln prt slack Xt Y0 steps in
-  let Dm := I.sub pra Xa (ione pra) in
-  let T2 := I.lower_extent Dm in
-  let T3 := if is_gt (I.sign_strict Xa) then I.upper_extent (I.div pra Dm Xa) else I.whole in
-  I.meet T1 (I.meet T2 T3).
+  let T23 :=
+    if near_one Xa then
+      let Dm := I.sub pra Xa (ione pra) in
+      let T2 := I.lower_extent Dm in
+      let T3 := if is_gt (I.sign_strict Xa) then I.upper_extent (I.div pra Dm Xa) else I.whole in
+      I.meet (ln1p_upper pra Dm) (I.meet T2 T3)
+    else I.whole in
+  I.meet T1 T23.
 
 Definition T_ln (prt pra : F.precision) (slack B s e : Z) (Y0 : I.type) (steps : list positive) : I.type :=
   T_ln_of prt pra slack (ival prt B s e) (ival pra B s e) Y0 steps.
@@ -175,12 +217,7 @@ Definition T_ln1p (prt pra : F.precision) (slack B s e : Z) (Y0 : I.type) (steps
   let T1 := vln prt slack X1 Y0 steps in
   let T2 := I.lower_extent X in
   let T3 := if is_gt (I.sign_strict X1) then I.upper_extent (I.div pra X X1) else I.whole in
-  (* x >= -1/2: with t = ln (1 + x) >= -2, x = exp t - 1 >= t + t^2/4 and |t| >= |x| / (1 + |x|), hence
-     t <= x - x^2 / (4 (1 + |x|)^2): a bound that stays strictly away from x *)
-  let A1 := I.add pra (ione pra) (I.abs X) in
-  let T4 := if is_ge (I.sign_large (I.add pra (I.mul pra (I.fromZ pra 2) X) (ione pra))) then
-              I.lower_extent (I.sub pra X (I.div pra (I.mul pra X X) (I.mul pra (I.fromZ pra 4) (I.mul pra A1 A1))))
-            else I.whole in
+  let T4 := ln1p_upper pra X in
   I.meet (I.meet T1 T4) (I.meet T2 T3).
 
 Definition T_powi (pra : F.precision) (B s e n : Z) : I.type :=
@@ -197,13 +234,9 @@ Definition start_of (pr : F.precision) (X : I.type) : I.type := ln_guess (F.PtoP
 
 Definition check_exp (prt pra : positive) (B p s e rs re : Z) (fexact : bool) : verdict :=
   let prt' := F.PtoP prt in let pra' := F.PtoP pra in
-  if s =? 0 then decide_exact pra' B p 1 0 rs re fexact
+  if s =? 0 then decide_exact B p 1 0 rs re fexact
   else if fexact && feq B rs re 1 0 then VReject          (* exp x = 1 only for x = 0 *)
   else decide_encl pra' B p (T_exp prt' pra' B s e) (ival pra' B rs re) fexact.
-
-(** exact comparison a * B^ea <= b * B^eb *)
-Definition fle (B a ea b eb : Z) : bool :=
-  let m := Z.min ea eb in a * B ^ (ea - m) <=? b * B ^ (eb - m).
 
 (** exp_m1 of x <= -K with 2^K > B^p:  -1 < t <= -1 + 2^-K < -1 + B^-p, so every r in
     [-1, -1 + B^-p] is strictly within B^-p = ulp_p(t) of t (closed intervals cannot express -1 < t) *)
@@ -213,7 +246,7 @@ Definition expm1_neg_rule (K B p s e rs re : Z) : bool :=
 
 Definition check_expm1 (prt pra : positive) (B p s e rs re : Z) (fexact : bool) : verdict :=
   let prt' := F.PtoP prt in let pra' := F.PtoP pra in
-  if s =? 0 then decide_exact pra' B p 0 0 rs re fexact
+  if s =? 0 then decide_exact B p 0 0 rs re fexact
   else if fexact && feq B rs re s e then VReject          (* exp x - 1 = x only for x = 0 *)
   else if negb fexact && expm1_neg_rule (Zpos prt) B p s e rs re then VAccept
   else decide_encl pra' B p (T_expm1 prt' pra' (Zpos prt) B s e) (ival pra' B rs re) fexact.
@@ -222,7 +255,7 @@ Definition check_ln (prt pra : positive) (slack : Z) (from_result : bool) (steps
     (B p s e rs re : Z) (fexact : bool) : verdict :=
   let prt' := F.PtoP prt in let pra' := F.PtoP pra in
   if s <=? 0 then VUndecided
-  else if feq B s e 1 0 then decide_exact pra' B p 0 0 rs re fexact
+  else if feq B s e 1 0 then decide_exact B p 0 0 rs re fexact
   else if fexact && (rs =? 0) then VReject                (* ln x = 0 only for x = 1 *)
   else
     let Y0 := if from_result then ival prt' B rs re else start_of prt' (ival prt' B s e) in
@@ -231,7 +264,7 @@ Definition check_ln (prt pra : positive) (slack : Z) (from_result : bool) (steps
 Definition check_ln1p (prt pra : positive) (slack : Z) (from_result : bool) (steps : list positive)
     (B p s e rs re : Z) (fexact : bool) : verdict :=
   let prt' := F.PtoP prt in let pra' := F.PtoP pra in
-  if s =? 0 then decide_exact pra' B p 0 0 rs re fexact
+  if s =? 0 then decide_exact B p 0 0 rs re fexact
   else if fexact && feq B rs re s e then VReject          (* ln (1 + x) = x only for x = 0 *)
   else
     let Y0 := if from_result then ival prt' B rs re
@@ -242,9 +275,9 @@ Definition check_ln1p (prt pra : positive) (slack : Z) (from_result : bool) (ste
     (a resource decision; both branches are sound). *)
 Definition check_powi (pra : positive) (exact_ok : bool) (B p s e n rs re : Z) (fexact : bool) : verdict :=
   let pra' := F.PtoP pra in
-  if n =? 0 then decide_exact pra' B p 1 0 rs re fexact
-  else if s =? 0 then (if 0 <? n then decide_exact pra' B p 0 0 rs re fexact else VUndecided)
-  else if exact_ok && (0 <? n) then decide_exact pra' B p (s ^ n) (e * n) rs re fexact
+  if n =? 0 then decide_exact B p 1 0 rs re fexact
+  else if s =? 0 then (if 0 <? n then decide_exact B p 0 0 rs re fexact else VUndecided)
+  else if exact_ok && (0 <? n) then decide_exact B p (s ^ n) (e * n) rs re fexact
   else if exact_ok && feq B (rs * s ^ (- n)) (re + e * (- n)) 1 0 then VAccept
   else if exact_ok && fexact then VReject
   else decide_encl pra' B p (T_powi pra' B s e n) (ival pra' B rs re) fexact.
@@ -253,11 +286,11 @@ Definition check_powi (pra : positive) (exact_ok : bool) (B p s e n rs re : Z) (
 Definition check_powf (prt pra : positive) (slack : Z) (steps : list positive) (exact_ok : bool)
     (B p s e ys ye rs re : Z) (fexact : bool) : verdict :=
   let prt' := F.PtoP prt in let pra' := F.PtoP pra in
-  if s <? 0 then VUndecided
-  else if ys =? 0 then decide_exact pra' B p 1 0 rs re fexact
+  if ys =? 0 then decide_exact B p 1 0 rs re fexact
   else if (0 <=? ye) && (ye <=? 64) then check_powi pra exact_ok B p s e (ys * B ^ ye) rs re fexact
-  else if s =? 0 then (if 0 <? ys then decide_exact pra' B p 0 0 rs re fexact else VUndecided)
-  else if feq B s e 1 0 then decide_exact pra' B p 1 0 rs re fexact
+  else if s <? 0 then VUndecided
+  else if s =? 0 then (if 0 <? ys then decide_exact B p 0 0 rs re fexact else VUndecided)
+  else if feq B s e 1 0 then decide_exact B p 1 0 rs re fexact
   else
     decide_encl pra' B p
       (T_powf prt' pra' slack B s e ys ye (start_of prt' (ival prt' B s e)) steps)
@@ -268,32 +301,36 @@ Definition check_powf (prt pra : positive) (slack : Z) (steps : list positive) (
     intermediate operation rounds in the same direction, so the error of the final result can exceed
     one ulp.  What the implementation still guarantees, and what these functions decide, is
     B^E <= |r| and |r - t| < B^(E-p+2): less than B units in the last place of the RESULT. *)
-Definition loose_ulp (pr : F.precision) (B p : Z) (T Rv : I.type) : verdict := decide_ulp pr B (p - 1) Rv T.
+Definition loose_ulp (pr : F.precision) (B p : Z) (T : I.type) (rs re : Z) : verdict :=
+  let E := dlen B rs + re - 1 in
+  if fle B 1 E (Z.abs rs) re &&
+     is_gt (I.sign_strict (I.sub pr (ival pr B 1 (E - p + 2)) (I.abs (I.sub pr (ival pr B rs re) T))))
+  then VAccept else VUndecided.
 
 Definition loose_exp (prt pra : positive) (B p s e rs re : Z) : verdict :=
-  loose_ulp (F.PtoP pra) B p (T_exp (F.PtoP prt) (F.PtoP pra) B s e) (ival (F.PtoP pra) B rs re).
+  loose_ulp (F.PtoP pra) B p (T_exp (F.PtoP prt) (F.PtoP pra) B s e) rs re.
 
 Definition loose_expm1 (prt pra : positive) (B p s e rs re : Z) : verdict :=
-  loose_ulp (F.PtoP pra) B p (T_expm1 (F.PtoP prt) (F.PtoP pra) (Zpos prt) B s e) (ival (F.PtoP pra) B rs re).
+  loose_ulp (F.PtoP pra) B p (T_expm1 (F.PtoP prt) (F.PtoP pra) (Zpos prt) B s e) rs re.
 
 Definition loose_ln (prt pra : positive) (slack : Z) (steps : list positive) (B p s e rs re : Z) : verdict :=
   let prt' := F.PtoP prt in let pra' := F.PtoP pra in
   if s <=? 0 then VUndecided else
-  loose_ulp pra' B p (T_ln prt' pra' slack B s e (start_of prt' (ival prt' B s e)) steps) (ival pra' B rs re).
+  loose_ulp pra' B p (T_ln prt' pra' slack B s e (start_of prt' (ival prt' B s e)) steps) rs re.
 
 Definition loose_ln1p (prt pra : positive) (slack : Z) (steps : list positive) (B p s e rs re : Z) : verdict :=
   let prt' := F.PtoP prt in let pra' := F.PtoP pra in
   loose_ulp pra' B p
     (T_ln1p prt' pra' slack B s e (start_of prt' (I.add prt' (ione prt') (ival prt' B s e))) steps)
-    (ival pra' B rs re).
+    rs re.
 
 Definition loose_powi (pra : positive) (B p s e n rs re : Z) : verdict :=
   let pra' := F.PtoP pra in
-  if s =? 0 then VUndecided else loose_ulp pra' B p (T_powi pra' B s e n) (ival pra' B rs re).
+  if s =? 0 then VUndecided else loose_ulp pra' B p (T_powi pra' B s e n) rs re.
 
 Definition loose_powf (prt pra : positive) (slack : Z) (steps : list positive) (B p s e ys ye rs re : Z) : verdict :=
   let prt' := F.PtoP prt in let pra' := F.PtoP pra in
   if s <=? 0 then VUndecided
   else if (0 <=? ye) && (ye <=? 64) then loose_powi pra B p s e (ys * B ^ ye) rs re
   else loose_ulp pra' B p
-         (T_powf prt' pra' slack B s e ys ye (start_of prt' (ival prt' B s e)) steps) (ival pra' B rs re).
+         (T_powf prt' pra' slack B s e ys ye (start_of prt' (ival prt' B s e)) steps) rs re.
